@@ -89,6 +89,20 @@ pub trait Adapter: 'static + Sized {
     fn shift_witness(_vk: &VK<Self>, _proof: &mut Proof<Self>, _e: Self::F) -> bool {
         false
     }
+    /// IPA: the library's own prover run over the committer key padded with identity elements to twice its length,
+    /// on the polynomials with the first one extended by X^(d+1) b(X): a proof with one round more for the false
+    /// value (p + X^(d+1) b)(z) of the first polynomial.  `sp` = the verifier's sponge at the start of the group.
+    fn forge_extra_round(
+        _ck: &CK<Self>,
+        _polys: &[&ark_poly_commit::LabeledPolynomial<Self::F, Self::P>],
+        _comms: &[&LabeledCommitment<Comm<Self>>],
+        _point: &Self::Pt,
+        _sp: &mut LogSponge<Self::F>,
+        _states: &[&CState<Self>],
+        _rng: &mut ChaCha20Rng,
+    ) -> Option<(Proof<Self>, Self::F)> {
+        None
+    }
     /// First coordinate of an evaluation point as a field element.
     fn point_coord0(_pt: &Self::Pt) -> Option<Self::F> {
         None
@@ -731,6 +745,48 @@ impl Adapter for Ipa {
         let mut p = proof.clone();
         p.final_comm_key = k;
         Some(p)
+    }
+    fn forge_extra_round(
+        ck: &CK<Self>,
+        polys: &[&ark_poly_commit::LabeledPolynomial<Self::F, Self::P>],
+        comms: &[&LabeledCommitment<Comm<Self>>],
+        point: &Self::Pt,
+        sp: &mut LogSponge<Self::F>,
+        states: &[&CState<Self>],
+        rng: &mut ChaCha20Rng,
+    ) -> Option<(Proof<Self>, Self::F)> {
+        use ark_poly::DenseUVPolynomial;
+        if polys.is_empty() || polys.iter().any(|p| p.degree_bound().is_some()) {
+            return None;
+        }
+        let n = ck.comm_key.len();
+        let mut fake = ck.clone();
+        fake.comm_key.extend(std::iter::repeat(<GEd as AffineRepr>::zero()).take(n));
+        let mut coeffs = polys[0].polynomial().coeffs.clone();
+        coeffs.resize(n, Self::F::zero());
+        for _ in 0..n {
+            coeffs.push(Self::F::rand(rng));
+        }
+        let big = ark_poly_commit::LabeledPolynomial::new(
+            polys[0].label().clone(),
+            UniPoly::<Self::F>::from_coefficients_vec(coeffs),
+            None,
+            polys[0].hiding_bound(),
+        );
+        let mut ps: Vec<&ark_poly_commit::LabeledPolynomial<Self::F, Self::P>> = vec![&big];
+        ps.extend(polys.iter().skip(1).cloned());
+        let mut prng = crate::common::LogRng::new(0xf0e9);
+        let proof = match guarded(|| {
+            Self::PC::open(&fake, ps.iter().cloned(), comms.iter().cloned(), point, sp, states.iter().cloned(), Some(&mut prng as &mut dyn RngCore))
+        }) {
+            Out::Ok(p) => p,
+            _ => return None,
+        };
+        let v = big.evaluate(point);
+        if v == polys[0].evaluate(point) {
+            return None;
+        }
+        Some((proof, v))
     }
     fn proof_mutation(
         kind: &str,
